@@ -244,6 +244,12 @@ class Built:
       log.add('start', pid, inv,
               {a: id(p) for a, p in plug_args.items()} if plug_args else None)
       try:
+        if beh.get('mon') and test is not None:
+          # monitored phase: the body is longer than one sampling interval
+          mon = test.measurements['mon_' + pid]
+          t_end = time.monotonic() + 10
+          while not mon.is_value_set and time.monotonic() < t_end:
+            time.sleep(0.0005)
         m = beh.get('m')
         if m and m != 'unset':
           test.measurements['m_' + pid] = {'pass': 5, 'fail': 50,
@@ -303,6 +309,15 @@ class Built:
         return inner(None, **plug_args)
     body.__name__ = pid
     body.__qualname__ = pid
+    if beh.get('mon') and not beh.get('noarg'):
+      # @monitors wraps the bare function; everything else is declared on the
+      # wrapper it returns (the monitor adds the measurement 'mon_<pid>', which
+      # has a sample by the time the body continues)
+      from openhtf.core import monitors
+
+      def sampler(test):
+        return 1.5
+      body = monitors.monitors('mon_' + pid, sampler, poll_interval_ms=2)(body)
     ph = pd.PhaseDescriptor.wrap_or_copy(body)
     for ent in plug_idx:
       # an int i asks for plug class i as argument 'plug<i>'; a string such as
@@ -421,6 +436,10 @@ def run_real(prog, cfg, callbacks=None, keep=False):
       return
     if a.exc_type.__name__ == 'ThreadTerminationError':
       return
+    if getattr(a.thread, 'name', '').endswith('_MonitorThread'):
+      # the sampling thread of a monitored phase that timed out: it samples
+      # until the abandoned body thread stops it; not an executor thread
+      return
     last = traceback.extract_tb(a.exc_traceback)[-1]
     crashes.append((a.exc_type.__name__, last.name,
                     getattr(a.thread, 'name', '?')))
@@ -476,9 +495,12 @@ def observe_record(rec):
       'branches': [[br.name, br.branch_taken] for br in rec.branches],
       'checkpoints': [[c.name, res_name(c.result), c.subtest_name]
                       for c in rec.checkpoints],
+      # ('mon_<pid>' is the measurement a @monitors wrapper adds)
       'meas': [[p.name, sorted((m.name, m.outcome.name)
-                               for m in p.measurements.values())]
-               for p in rec.phases if p.measurements],
+                               for m in p.measurements.values()
+                               if not m.name.startswith('mon_'))]
+               for p in rec.phases
+               if any(not n.startswith('mon_') for n in p.measurements)],
       'diagnoses': sorted((d.result.name, bool(d.is_failure))
                           for d in rec.diagnoses),
       'details': sorted(d.code for d in rec.outcome_details),
